@@ -32,3 +32,14 @@ pub fn yield_point(site: u32) {
 pub fn spin_point(site: u32) {
     call(site, true);
 }
+
+/// Calls `yield_point(site)` when dropped: placed as the last local of a block so that the point
+/// is reached immediately before the values bound outside that block are dropped.
+#[derive(Debug)]
+pub struct YieldOnDrop(pub u32);
+
+impl Drop for YieldOnDrop {
+    fn drop(&mut self) {
+        yield_point(self.0);
+    }
+}
